@@ -106,7 +106,9 @@ func NewMemProvider(config *topicstypes.MemConfig) (topicstypes.Provider, error)
 		}
 	}
 
-	publisherCount := 2
+	// a single routing worker: with more than one, two messages from the same publisher to the
+	// same topic can be handed to a subscriber out of order [MQTT-4.6.0-5]
+	publisherCount := 1
 	subsCount := 2
 	unSunCount := 2
 
